@@ -1,26 +1,16 @@
 package c13
 
 import (
-	"os"
-	"runtime"
 	"runtime/debug"
-	"strconv"
 	"testing"
 
 	"verifharness/evid"
 )
 
-var ballast []byte
-
 func TestMain(m *testing.M) {
-	gc, _ := strconv.Atoi(os.Getenv("C13_GC"))
-	bl, _ := strconv.Atoi(os.Getenv("C13_BALLAST"))
-	if gc > 0 {
-		debug.SetGCPercent(gc)
-	}
-	if bl > 0 {
-		ballast = make([]byte, bl<<20)
-	}
+	// Every case builds a fresh stack (its neighbour cache alone is a few
+	// hundred KB that must be zeroed) while the live heap stays tiny: with the
+	// default GC percentage a collection would run for almost every case.
+	debug.SetGCPercent(400)
 	evid.Main(m, "C13")
-	runtime.KeepAlive(ballast)
 }
